@@ -208,7 +208,14 @@ pub fn gen_object(rng: &mut Rng, idx: usize, sender: &SenderSpec, max_symbols: u
     }
     o.source = match rng.below(20) {
         0..=13 => SourceSpec::Buffer,
-        14..=16 => SourceSpec::Stream(ReadSched::Full),
+        14..=16 => {
+            if rng.chance(0.35) {
+                // handed over at a non-zero position; short reads
+                SourceSpec::StreamAt(if rng.chance(0.5) { ReadSched::Full } else { ReadSched::Fixed(*rng.pick(&[3usize, 64, 1000])) }, *rng.pick(&[1u32, 500, 1000]))
+            } else {
+                SourceSpec::Stream(ReadSched::Full)
+            }
+        }
         17..=18 => SourceSpec::File,
         _ => SourceSpec::FileInRam,
     };
